@@ -137,17 +137,23 @@ def _extra(lines, verdicts):
            "alloc_failures": 0, "dropped_never_written": 0, "dropped_before_write": 0, "dropped_after_write": 0,
            "dropped_after_response": 0, "max_outstanding_on_one_connection": 0, "exhaustion_runs_reaching_32768": 0,
            "oversized_frames_on_the_wire": 0, "not_run_env": 0, "exhaustion_runs_total": 0,
-           "exhaustion_runs_with_refusal_after_abandon_and_wait": 0, "scenarios_with_repeated_attempts": 0, "frames_on_negative_stream_ids": 0,
+           "exhaustion_runs_with_refusal_after_abandon_and_wait": 0, "scenarios_with_repeated_attempts": 0, "not_run_by_kind": {}, "frames_on_negative_stream_ids": 0,
            "threshold_runs_connection_ended": 0, "threshold_runs_connection_kept": 0,
            "callers_failed_by_orphan_threshold": 0, "submit_storm_runs": 0, "submit_storm_callers_aborted": 0}
     timed = {"cases": 0, "allocations_refused_after_real_wait": 0, "count_probes": 0}
     reader = {"cases": 0, "frames_returned": 0, "bodies_over_256MiB": 0}
-    for ln in lines:
+    vs = list(verdicts) if verdicts else []
+    vs += [None] * (len(lines) - len(vs))
+    timed_oldids = 0
+    for ln, vd in zip(lines, vs):
         case, _, out = ln.partition("|")
         k = case.split(" ", 1)[0]
+        if k == "T" and vd and vd.startswith("ok oldids"):
+            timed_oldids += 1
         if k in E2E_KINDS:
-            if out.split()[:1] == ["setup-error"]:
+            if (vd and vd.startswith("ok notrun")) or out.split()[:1] == ["setup-error"] or " NEXT setup-error" in out:
                 e2e["not_run_env"] += 1
+                e2e["not_run_by_kind"][k] = e2e["not_run_by_kind"].get(k, 0) + 1
                 continue
             ev = _events(ln)
             e2e["runs"] += 1
@@ -155,11 +161,15 @@ def _extra(lines, verdicts):
                 e2e["scenarios_with_repeated_attempts"] += 1
             if k == "X":
                 e2e["exhaustion_runs_total"] += 1
+                # a refusal of the SECOND batch of extra requests (markers > fill + extra, submitted after
+                # the callers were abandoned and the wait): X <seed> <fill> <extra> ...
+                cf = case.split()
+                second = int(cf[2]) + int(cf[3])
                 seen_c = False
                 for e in ev:
                     if e[0] == "c" and not e.startswith("close"):
                         seen_c = True
-                    elif seen_c and e.startswith("d") and e.endswith(".a"):
+                    elif seen_c and e.startswith("d") and e.endswith(".a") and int(e[1:].split(".")[0], 16) > second:
                         e2e["exhaustion_runs_with_refusal_after_abandon_and_wait"] += 1
                         break
             pos_in, pos_out = {}, {}
@@ -241,6 +251,7 @@ def _extra(lines, verdicts):
                 ops += 1
         if " F8000." in case:
             full += 1
+    timed["count_probes_also_compared_with_old_ids"] = timed_oldids
     return {"operations_compared": ops, "full_32768_id_fills": full, "timed_state_machine": timed,
             "end_to_end": e2e, "frame_reader": reader,
             "census": {"functions_pinned": list(CONN_SKELETON), "tokens": sum(len(v) for v in CONN_SKELETON.values()),
@@ -249,7 +260,8 @@ def _extra(lines, verdicts):
 
 # what a run must really have exercised (non-replay runs): (quick, thorough)
 FLOORS = {
-    ("end_to_end", "runs"): (62, 680),
+    ("end_to_end", "runs"): (64, 680),
+    ("timed_state_machine", "count_probes_also_compared_with_old_ids"): (2, 6),
     ("end_to_end", "submit_storm_callers_aborted"): (2000, 20000),
     ("end_to_end", "frames_on_negative_stream_ids"): (100, 1000),
     ("end_to_end", "threshold_runs_connection_ended"): (1, 3),
@@ -285,9 +297,20 @@ def post(lines, verdicts):
         return out
     cov = _extra(lines, verdicts)
     ti = _tier()
+    # a floor fed by one kind of scenario gives way by the number of such scenarios that could not run
+    # (environment; capped below), so that a tolerated not-run cannot trip a floor
+    by_kind = cov["end_to_end"]["not_run_by_kind"]
+    feeds = {"exhaustion_runs_reaching_32768": "X", "exhaustion_runs_with_refusal_after_abandon_and_wait": "X",
+             "alloc_failures": "X", "threshold_runs_connection_ended": "K", "threshold_runs_connection_kept": "K",
+             "callers_failed_by_orphan_threshold": "K", "oversized_frames_on_the_wire": "G"}
     for (grp, key), fl in FLOORS.items():
-        if cov[grp][key] < fl[ti]:
-            out.append(("diff", f"coverage {grp}.{key}", f"diff coverage-floor: {grp}.{key} = {cov[grp][key]} < {fl[ti]}: "
+        need = fl[ti]
+        if grp == "end_to_end" and key in feeds and by_kind.get(feeds[key], 0) > 0:
+            need = 0
+        if key == "runs":
+            need -= cov["end_to_end"]["not_run_env"]
+        if cov[grp][key] < need:
+            out.append(("diff", f"coverage {grp}.{key}", f"diff coverage-floor: {grp}.{key} = {cov[grp][key]} < {need}: "
                         "the run did not exercise what the evidence claims"))
     nr = cov["end_to_end"]["not_run_env"]
     if nr > NOT_RUN_CAP[ti]:
@@ -308,16 +331,16 @@ SPEC = {
              "{allocate rid 1|2, orphan rid 1|2|3, lookup id 0|1|2, probe}; Z = fill of all 32768 ids, over-allocation, orphans, "
              "scattered drain, re-allocation; B = prefilled to a word boundary then <= 60 random ops; Q = <= 60 random ops; "
              "T = timed: real sleeps between orphaning and allocation (all ids used, orphans older / younger than 1 s), "
-             "old_orphans_count compared through the bracket of the clock readings. End to end (mocknode, one pool connection of a "
+             "old_orphans_count compared through the bracket of the clock readings (a final probe also with the number of ids orphaned for over 1 s, old_ids). End to end (mocknode, one pool connection of a "
              "real Session, unique marker per request echoed in the answer): P = phased run on a current-thread runtime with callers "
              "dropped before enqueue / before write / after write / after the response; R = random timeouts, select and abort on a "
              "multi-thread runtime, answers delayed and reordered; X = 32768 requests held by the mock, extra requests, callers "
              "abandoned, > 1 s wait, more requests, release; G = a response frame with a body > 256 MiB whose tail looks "
              "like frames for other in-flight streams; the merged history is judged by the extracted acceptor c02_trace_ok. "
              "S = submit storm: 1500-2000 caller tasks on 3 workers, up to 900 of them (about 7 in 12) aborted from outside within 3 ms while the submissions race "
-             "for the 1024 channel slots (request id allocated -> slot awaited -> task pushed); N = R with about one answer in 12 sent on a negative stream id (-1, -2, -100, -32768, -32767); K = 1..1500 callers abandoned "
+             "for the 1024 channel slots (request id allocated -> slot awaited -> task pushed); N = R with about one answer in 12 sent on a negative stream id (-1, -2, -100, -32768, -32767); K = abandon in {1025, 1024, 1200, 1000, 1020} (thorough: {1025, 1024, 1100, 1000, 1026, 1023, 1500, 30}) callers abandoned "
              "while the mock holds their answers: the orphaner's tick must end the connection iff more than 1024 ids have been "
-             "orphaned for over 1 s (model: old_ids / orphaner_tick_breaks, C02_tick_char), then every live caller fails and none holds rows. "
+             "orphaned for over 1 s (model: orphaner_tick_breaks on the state 'all abandoned ids orphaned at clock 0', i.e. abandon > 1024), then every live caller fails and none holds rows. "
              "O = read_response_frame over generated byte streams (incl. a 256 MiB + 64 KiB body) against the extracted reader "
              "model / its law. non-trivial = allocation and lookup/orphan (sm), a request written and a caller completed (e2e); "
              "distinct = distinct case lines"),
@@ -329,7 +352,7 @@ SPEC = {
         "the connection-level interleaving semantics (labels, atomicity = one try_lock critical section, FIFO channels, "
         "peer that answers only what it received, once) is a hand-written model of router/reader/writer/orphaner; it is tied to the "
         "code through the handler-map operations (sm tie) and through the acceptor c02_trace_ok, which accepts every history of the "
-        "model (C02_trace_sound) and is run on histories of the real connection (e2e tie)",
+        "model that ends with all written frames received (C02_trace_sound, premise c_writing = []) and is run on histories of the real connection (e2e tie)",
         "mocknode (harness/src/mocknode) and harness/src/c02_e2e.rs: the mock's frame trace, the echo of the marker, the merge of "
         "caller-side stamps (submit stamped before the call, outcome after it) with the mock's events by one monotonic clock; an "
         "accepted skewed observation implies the property for the real history (C02_trace_skew); that the skewed observation of "
